@@ -38,3 +38,5 @@ pub open spec fn set_opts(parts: Seq<RespFrame>, i: int, o: SetOpts) -> Option<S
         }
     }
 }
+/// remaining time in whole seconds, rounded up; -2 only when nothing remains
+pub open spec fn ttl_seconds(n: int) -> int { if n == 0 { -2 } else if n % 1_000_000_000 == 0 { n / 1_000_000_000 } else { n / 1_000_000_000 + 1 } }
